@@ -75,7 +75,8 @@ PROPS.update({
         "groups": [{"modules": ["specs.socket_model", "specs.pystruct", "specs.seqdict", "contracts.socketutil", "contracts.protocol"],
                     "contracts": ["Pyro5.protocol.ReceivingMessage.__init__", "Pyro5.protocol.ReceivingMessage.validate", "Pyro5.protocol.ReceivingMessage.add_payload"]},
                    {"modules": ["specs.socket_model", "specs.pystruct", "specs.seqdict", "specs.opaque", "specs.daemon_model", "contracts.server_loops"],
-                    "contracts": ["Pyro5.svr_threads.SocketServer_Threadpool.events", "Pyro5.svr_threads.SocketServer_Threadpool.loop"]}],
+                    "contracts": ["Pyro5.svr_threads.SocketServer_Threadpool.events", "Pyro5.svr_threads.SocketServer_Threadpool.loop",
+                                  "Pyro5.svr_multiplex.SocketServer_Multiplex.events"]}],
         "harness": "replay/dispatch.py",
         "explanation": "exception containment proved against the weakest callee contracts (handleRequest / _handshake / _clientDisconnect may raise ANY Exception): "
                        "nothing escapes the per-connection job of the thread server (so the worker always returns to the pool), the refusal path, the multiplex "
@@ -84,22 +85,27 @@ PROPS.update({
                        "decoder itself - ReceivingMessage.__init__ / validate / add_payload - raises only ProtocolError (AssertionError for a tiling mismatch) on arbitrary "
                        "header and payload bytes, whatever the length fields say.  Third group: the thread server's accept path - events() turns an accepted connection into exactly "
                        "one job offered to the pool once, denies (with a reason) exactly the jobs the pool refuses, and lets only OS errors of select/accept escape, before any "
-                       "job exists; loop() contains those, so that only the caller's own loop condition can end the request loop with an exception.",
+                       "job exists; loop() contains those, so that only the caller's own loop condition can end the request loop with an exception; the multiplex server's events() (loop invariant over the "
+                       "event sockets) lets only ConnectionClosedError from the accept path (listening socket gone) and the owner's housekeeping hook escape.",
         "assumptions": _COMMON_ASSUME + ["liveness (a silent peer blocking a read without COMMTIMEOUT), resource exhaustion and the scheduler are outside the technique",
-                                         "accept path: the pool is open while the loop runs; OS-raised errors carry (errno, text); the multiplex server's events()/loop() "
-                                         "selector loops are covered by the bounded harness only",
+                                         "accept path: the pool is open while the loop runs; OS-raised errors carry (errno, text); the multiplex server's loop() (selector "
+                                         "bookkeeping around events()) is covered by the bounded harness only",
                                          "the accept loops SocketServer_*.events/loop around these handlers are covered by the bounded native harness only"],
     },
     "C13": {
         "modules": _DISPATCH_MODS,
         "contracts": ["Pyro5.svr_threads.ClientConnectionJob.__call__", "Pyro5.svr_multiplex.SocketServer_Multiplex.handleRequest",
                       "Pyro5.svr_multiplex.SocketServer_Multiplex._handleConnection", "Pyro5.socketutil.SocketConnection.close#body", _HR],
+        "groups": [{"modules": ["specs.socket_model", "specs.pystruct", "specs.seqdict", "specs.opaque", "specs.daemon_model", "contracts.server_loops"],
+                    "contracts": ["Pyro5.svr_multiplex.SocketServer_Multiplex.events"]}],
         "harness": "replay/dispatch.py",
         "explanation": "thread job: for an accepted connection every exit path (any exception class out of handleRequest, exception in the hook) runs the disconnect "
                        "handling exactly once and then closes the connection exactly once; a refused connection is closed once without hook.  close(): every tracked "
                        "resource closed exactly once whatever the others raise, nothing else closed, resource set emptied, session instances dropped, socket closed even if "
                        "shutdown() raised, keep_open is a no-op.  handleRequest: constructors of session/percall instances run with the call context already naming this "
-                       "connection (so resources they track land on it).  multiplex: handleRequest(conn) reports inactive exactly when the request raised.",
+                       "connection (so resources they track land on it).  multiplex: handleRequest(conn) reports inactive exactly when the request raised; events() (second contract group, loop invariant per socket event) gives a "
+                       "connection that became inactive the disconnect hook, the unregistration and the close - each exactly once, in that order, also when the hook raises - "
+                       "leaves active connections and the listening socket alone, and registers a new connection exactly when the accept path handed it back.",
         "assumptions": _COMMON_ASSUME + ["multiplex events(): inactive -> _clientDisconnect, unregister, close is three straight-line statements checked by the native harness only",
                                          "daemon shutdown with open connections and GC-driven __del__ ordering are outside the claim"],
     },
